@@ -128,7 +128,9 @@ func (w *world) find(id string) *poolMsg {
 	return nil
 }
 
-func payload(sideIdx, k int) []byte { return []byte(fmt.Sprintf("app-data-from-%s-%d", side(sideIdx), k)) }
+func payload(sideIdx, k int) []byte {
+	return []byte(fmt.Sprintf("app-data-from-%s-%d", side(sideIdx), k))
+}
 
 // checkIdempotent: Handshake(nil) twice returns identical bytes.
 func (w *world) checkIdempotent(i int) {
